@@ -446,7 +446,7 @@ def run_c36(pid, tier, replay):
     else:
         ws_runs = [
             ("pinned", dict(PINNED, rev="FALSE"), None, None, 10 ** 6, 0),
-            ("n234", dict(GENERAL, n="2, 3, 4", rev="FALSE, TRUE"), 80, 6, 50, 10),
+            ("n234", dict(GENERAL, n="2, 3, 4", rev="FALSE, TRUE"), 40, 6, 50, 10),
         ]
         pars = "1,2,4,8,16"
         holdpars = "4,16"
